@@ -91,3 +91,39 @@ def run(v, tier, replay):
             break
         else:
             v.count("concurrent_batches_with_fewer_successes_than_sequential")
+    # 4. the real session path (hopSession.start -> checkAuthorization) with the grant switch flipped on a running
+    #    server: histories of HopGrants.tla with Toggle, replayed by the hopserver overlay driver; C05's clause is
+    #    judged here (admitted => grants enabled and a grant stored for that user and key)
+    import importlib.util, concurrent.futures
+    sp = importlib.util.spec_from_file_location("c07", os.path.join(os.path.dirname(os.path.abspath(__file__)), "c07.py"))
+    c07 = importlib.util.module_from_spec(sp); sp.loader.exec_module(c07)
+    r, hs = c07.histories(3000 if thorough else 700, lib.seed() + 5, c07.CODE, toggles=2)
+    v.add_tlc("MC_HopGrants simulation with the grant switch flipped (history generation for the real session path)", r)
+    hs = [h for h in hs if any(o["op"] == "connect" for o in h["hist"])]
+    if len(hs) < 100:
+        raise lib.Inconclusive("too few session histories: %d" % len(hs))
+    for i, h in enumerate(hs):
+        h["id"] = i
+    sd2 = lib.scratch("vf-c05s-")
+    NP = 4
+    def child(i):
+        inp = os.path.join(sd2, "h-%d.ndjson" % i); out = os.path.join(sd2, "o-%d.ndjson" % i)
+        lib.write_ndjson(inp, hs[i::NP])
+        rc, so, se = lib.overlay_test("hopserver", "^TestVerifGrantsReplay$", env_extra={"VT_IN": inp, "VT_OUT": out}, timeout=1500)
+        return i, rc, out, (so + se)[-3000:]
+    with concurrent.futures.ThreadPoolExecutor(max_workers=NP) as ex:
+        for i, rc, out, tail in ex.map(child, range(NP)):
+            evs = lib.read_ndjson(out) if os.path.exists(out) else []
+            if rc != 0 or not any(e.get("done") for e in evs):
+                raise lib.Inconclusive("overlay driver %d failed: rc=%s\n%s" % (i, rc, tail))
+            for e in evs:
+                if "results" not in e:
+                    continue
+                h = hs[e["id"]]["hist"]
+                v.count("session_path_histories")
+                v.case(("session", c07.desc(h)), nontrivial=True)
+                for sig in c07.judge(h, e["results"]):
+                    if "admitted" in sig:
+                        v.violation(sig, "history replayed through the real session loop (hopSession.start / checkAuthorization)", dict(history=h, observed=e))
+                if all(o.get("admitted") == r_.get("admitted") for o, r_ in zip(h, e["results"]) if o["op"] == "connect"):
+                    v.count("traces_validated_against_impl")
